@@ -51,7 +51,10 @@ DrawnExact(dg, s) ==
 PrimOK(obs, ex) == /\ obs[1] = ex[1] /\ \A i \in 2..5 : IsRounding(obs[i] - ex[i][2], ex[i][1])
 BoxesOK(prims, dg, s) == LET ex == DrawnExact(dg, s) IN Len(prims) = Len(ex) /\ \A k \in DOMAIN ex : PrimOK(prims[k], ex[k])
 
-Within(obs, num, den) == Abs(obs * den - 1000 * num) <= den       \* a value in thousandths equals the rational within 1/1000
+\* a value in thousandths equals the rational num/den within 2/1000 (computed without large products)
+Milli(num, den) == LET q == num \div den  r == num - q * den  k == (den \div 1000000) + 1 IN
+                   1000 * q + (1000 * (r \div k)) \div Max({1, den \div k})
+Within(obs, num, den) == Abs(obs - Milli(num, den)) <= 2
 
 JudgePlot ==
   LET o == T.obs
@@ -84,12 +87,12 @@ JudgePlot ==
                             IsRounding(p[3], ExactX(<<p[1], 2>>, s)) /\ IsRounding(p[4], ExactY(<<p[2], 2>>, s)),
               \* check_modules and get_floorplan_plot
               check_exact |-> (o.check = 1) <=> ~Drawable(dg),
-              plot_total |-> (o.plot.raised = 1) <=> ~Drawable(dg),
-              image_size |-> o.plot.raised = 0 => o.plot.size = ImageSize(s),
-              pixel_boxes |-> (o.plot.raised = 0 /\ T.loose = 0) => BoxesOK(o.plot.prims, dg, s),
-              primitive_count |-> o.plot.raised = 0 =>
+              plot_total |-> o.plot.skipped = 0 => ((o.plot.raised = 1) <=> ~Drawable(dg)),
+              image_size |-> (o.plot.raised = 0 /\ o.plot.skipped = 0) => o.plot.size = ImageSize(s),
+              pixel_boxes |-> (o.plot.raised = 0 /\ o.plot.skipped = 0 /\ T.loose = 0) => BoxesOK(o.plot.prims, dg, s),
+              primitive_count |-> (o.plot.raised = 0 /\ o.plot.skipped = 0) =>
                                     Len(o.plot.prims) = 2 + nshapes + FoldLeft(LAMBDA a, nt : a + Len(nt) + (IF Len(nt) >= 3 THEN 1 ELSE 0), 0, dg.nets),
-              inside_image |-> (o.plot.raised = 0 /\ Len(o.plot.prims) >= 2 + nshapes) =>
+              inside_image |-> (o.plot.raised = 0 /\ o.plot.skipped = 0 /\ Len(o.plot.prims) >= 2 + nshapes) =>
                                  /\ InImage(o.plot.prims[1], s) /\ InFrame(o.plot.prims[2], s)
                                  /\ \A k \in 1..nshapes : (IF dg.cells # <<>> THEN InDie(dg.cells[k], d) ELSE InDie(sh[k], d))
                                                              => InFrame(o.plot.prims[2 + k], s),
@@ -102,7 +105,7 @@ JudgePlot ==
                              /\ Len(got) = Len(want)
                              /\ \A k \in DOMAIN want : Within(got[k][1], want[k][1][1], want[k][1][2]) /\ Within(got[k][2], want[k][2][1], want[k][2][2]) ]
       dr == [ d_scale_rounding |-> o.sc.width = ref.width /\ o.sc.height = ref.height,
-              d_tie_rounding |-> (o.plot.raised = 0 /\ T.loose = 0 /\ Drawable(dg)) => o.plot.prims = Drawn(dg, s) ]
+              d_tie_rounding |-> (o.plot.raised = 0 /\ o.plot.skipped = 0 /\ T.loose = 0 /\ Drawable(dg)) => o.plot.prims = Drawn(dg, s) ]
   IN /\ fails' = { <<1, k>> : k \in Bad(cl) } /\ drift' = { <<1, k>> : k \in Bad(dr) }
      /\ die' = d /\ req' = r /\ sc' = s /\ design' = dg /\ pc' = "plotted"
      /\ UNCHANGED <<plot, fname>>
